@@ -101,11 +101,15 @@ def gen_boundary(rng):
         return rng.choice(['a = b.', 'X = Y :- true.', '=(a,b).', '- a.', '+ a :- b.', 'a \\= b.', 'a < b.', '(a = b).', 'a == b :- c.']), k
     if k == 'failbody':
         ar = rng.choice([0, 1, 2, 3])
-        head = 'p' + ('(' + ','.join(rng.choice(['X', 'a', '_', '[H|T]', 'f(X)']) for _ in range(ar)) + ')' if ar else '')
+        # names that contain Python keywords / generator-internal words: textual shortcuts in a code generator key on them
+        hn = rng.choice(['p', 'p', 'expected_yield', 'yield_of', 'my_return', 'for_each', 'doBreak_x', 'if_false', 'pass_on', 'x_yield_y'])
+        head = hn + ('(' + ','.join(rng.choice(['X', 'a', '_', '[H|T]', 'f(X)', 'Yield', 'yield', "'yield False'"]) for _ in range(ar)) + ')' if ar else '')
         body = rng.choice(['fail', 'true', '\\+ true', '(fail ; fail)', '(fail -> true)', '\\+ fail, fail', 'q, fail', 'fail, q',
                            '(fail -> true ; fail)', '!, fail', 'fail, !', '(q, fail ; fail)', '\\+ \\+ fail', '(true -> fail)',
                            '(fail ; fail), q', '\\+ q, fail', '((fail))', 'true, true', '!'])
         extra = rng.choice(['', '\n' + head + '.', '\nq.', '\nq :- fail.'])
+        body = body.replace('q', rng.choice(['q', 'q', 'yield', 'bond_yield(Y)', 'return', 'crop(Yield)', "'yield'"]))
+        extra = extra.replace('q', 'q') if 'q' in body else extra
         return '%s :- %s.%s' % (head, body, extra), k
     if k == 'longconj':
         n = rng.randrange(1, 41)
